@@ -68,6 +68,7 @@ std::string OutStr(const COutPoint& o) { return o.hash.ToString().substr(0, 16) 
 std::atomic<uint64_t> g_progress{0};
 std::atomic<const char*> g_phase{"init"};
 std::atomic<bool> g_wd_stop{false};
+std::atomic<uint64_t> g_wd_case{0}; // own copy: vh::cur_case() is a plain variable of the main thread
 void Progress(const char* phase)
 {
     g_phase.store(phase, std::memory_order_relaxed);
@@ -90,7 +91,7 @@ struct Watchdog {
                 }
                 if (++idle == stall_s) {
                     std::fprintf(stderr, "vh: WATCHDOG no progress for %d s in case %llu phase %s (possible deadlock in the code under test)\n",
-                                 stall_s, (unsigned long long)vh::cur_case(), g_phase.load());
+                                 stall_s, (unsigned long long)g_wd_case.load(), g_phase.load());
                     std::fflush(stderr);
                 }
             }
@@ -1144,6 +1145,7 @@ VH_CMD(c14_blocks)
     static const uint32_t PROBS[] = {0, 50, 200, 500};
     for (uint64_t c = args.from; c < args.to; ++c) {
         vh::set_case(c);
+        g_wd_case.store(c);
         vh::Rng rng(args.seed, c);
         Progress("build-history");
         SelectParams(ChainType::REGTEST);
@@ -1199,6 +1201,7 @@ VH_CMD(c14_overlay)
     Watchdog wd(static_cast<int>(args.geti("stall_s", 60)));
     for (uint64_t c = args.from; c < args.to; ++c) {
         vh::set_case(c);
+        g_wd_case.store(c);
         RunOverlayCase(args, c, aff);
     }
     e7::Uninstall();
